@@ -286,7 +286,7 @@ class Renderer:
             else:
                 out.append("%s%s: .zero %d" % (ind, d["name"], d["n"]))
             if not self.plain and self.r.random() < 0.2:
-                out[-1] += "  # " + self.r.choice(["comment", "x1, 5", ".word 3", "la x1, q"])
+                out[-1] += "  # " + self.r.choice(["comment", "x1, 5", ".word 3", "la x1, q", "item #2", "# x #"])
         return out
 
     def program(self, ast, data_first=None, text_directive=None):
@@ -301,11 +301,11 @@ class Renderer:
                 if l == here[-1] and (not self.plain and r.random() < 0.5):
                     pre = l + ":" + r.choice([" ", "  ", "\t"])
                 else:
-                    lines.append(("" if self.plain else r.choice(["", "  ", "\t"])) + l + ":" + ("" if self.plain else r.choice(["", " # lbl", "   "])))
+                    lines.append(("" if self.plain else r.choice(["", "  ", "\t"])) + l + ":" + ("" if self.plain else r.choice(["", " # lbl", "   ", " # lbl #1"])))
             if not self.plain and r.random() < 0.2:
-                lines.append(r.choice(["", "   ", "# comment", "  # c , x1", "\t", "#"]))
+                lines.append(r.choice(["", "   ", "# comment", "  # c , x1", "\t", "#", "## c", "# a # b"]))
             ind = "" if self.plain else r.choice(["", "  ", "\t", "        "])
-            lines.append(ind + pre + self.stmt(s) + ("" if self.plain else r.choice(["", " # trailing", "  ", "\t#x"])))
+            lines.append(ind + pre + self.stmt(s) + ("" if self.plain else r.choice(["", " # trailing", "  ", "\t#x", " # no. #3", " #a#b"])))
         for l in labels:
             if pos[l] == len(stmts):
                 lines.append(l + ":")
